@@ -431,4 +431,87 @@ Proof.
        apply (IH cur') with (a := la) (b := fst (segs (S cur') b)); [lia|lia|lia|exact Hc|exact Hla'|exact Hgb0]).
 Qed.
 
+(** * Insert below the root *)
+Lemma erase_fresh d : erase_n (fresh_node K V) = bnode d [].
+Proof. rewrite bnode_eq. cbn [Build.segs fst snd Build.mk_es map]. rewrite subl_nil. reflexivity. Qed.
+
+(* the node reached by descending: the child for the run s (a fresh node for an empty run) *)
+Lemma descend_child cur' (child : link) (s : seg) :
+  erase_l child = build cur' s ->
+  oks (match child with LNil => ret (fresh_node K V) | _ => load _ _ child end) (fun c => erase_n c = bnode cur' s).
+Proof.
+  intros Hc. destruct s as [|x r].
+  - rewrite build_nil in Hc. apply erase_l_nil in Hc. subst child. apply oks_ret. apply erase_fresh.
+  - destruct (load_build cur' _ _ Hc ltac:(discriminate)) as [Lc Nc].
+    destruct child; [contradiction|exact Lc..].
+Qed.
+
+Lemma split_subl d f k (c : link) (la sb : seg) :
+  d <= f -> erase_l c = subl d (la ++ sb) -> all_lt la k -> all_gt sb k ->
+  oks (on_link _ _ c (LNil, LNil) (split _ _ cmp f k))
+      (fun r => erase_l (fst r) = subl d la /\ erase_l (snd r) = subl d sb).
+Proof.
+  intros Hf. apply split_child. intros d' -> n a b Hn Ha Hb. apply split_spec; [lia|assumption..].
+Qed.
+
+Definition ins_absent_post (cur : nat) (l' : seg) (r : ins_res K V) : Prop :=
+  match r with IIns n' => erase_n n' = bnode cur l' | _ => False end.
+
+Lemma ins_absent : forall cur fuel n a b k v target,
+  cur < fuel -> target = Nat.min (layer k) cur ->
+  erase_n n = bnode cur (a ++ b) -> all_lt a k -> all_gt b k ->
+  oks (ins _ _ cmp veq fuel cur target k v n) (ins_absent_post cur (a ++ (k, v) :: b)).
+Proof.
+  induction cur as [cur IH] using lt_wf_ind; intros fuel n a b k v target Hf Ht He Ha Hb.
+  destruct fuel as [|f]; [lia|]. cbn [ins]. apply oks_tick.
+  destruct (segs cur a) as [s0a psa] eqn:Ea. destruct (segs cur b) as [s0b psb] eqn:Eb.
+  destruct (set_last_seg K V s0a psa (last_seg K V s0a psa ++ s0b)) as [s0' psa'] eqn:Es.
+  destruct (cut_node _ _ _ _ _ _ _ _ _ _ _ He Ha (all_gt_ge _ _ Hb) Ea Eb Es) as (H0 & Hl & Hr).
+  destruct (span_lt _ _ cmp k (n_es _ _ n)) as [les rs]. cbn [fst snd] in Hl, Hr.
+  pose proof (segs_Forall (fun x => lt k (fst x)) cur b Hb) as [Hgb0 Hgb]. rewrite Eb in Hgb0, Hgb. cbn [fst snd] in Hgb0, Hgb.
+  pose proof (segs_Forall (fun x => lt (fst x) k) cur a Ha) as [Hla0 Hla]. rewrite Ea in Hla0, Hla. cbn [fst snd] in Hla0, Hla.
+  assert (Hh : hits _ _ cmp k rs = false).
+  { eapply hits_false_gt; [exact Hr|]. eapply Forall_impl; [|exact Hgb]. intros p [Hp _]. exact Hp. }
+  rewrite Hh.
+  set (la := last_seg K V s0a psa) in *.
+  assert (Hla' : all_lt la k) by (apply last_seg_Forall; assumption).
+  assert (Hchild : erase_l (last_link _ _ (n_l0 _ _ n) les) = subl cur (la ++ s0b)).
+  { rewrite last_link_erase, H0, Hl, last_link_mk_es.
+    pose proof (last_seg_set K V s0a psa (la ++ s0b)) as Q. rewrite Es in Q. rewrite Q. reflexivity. }
+  destruct (Nat.eqb cur target) eqn:Ect.
+  - (* the key's own layer: split the child, insert here *)
+    apply Nat.eqb_eq in Ect.
+    eapply oks_bind; [exact (split_subl cur f k _ la s0b ltac:(lia) Hchild Hla' Hgb0)|].
+    intros [ll rl] [Hll Hrl]. cbn [fst snd] in Hll, Hrl.
+    destruct (set_last_link _ _ (n_l0 _ _ n) les ll) as [l0' les'] eqn:Esl.
+    apply oks_ret. unfold ins_absent_post. rewrite erase_mk_dirty, map_app. cbn [map].
+    apply set_last_link_erase' in Esl. rewrite H0, Hl, Hll, set_last_link_mk_es in Esl.
+    pose proof (set_last_seg_twice K V s0a psa (la ++ s0b) la) as Q. rewrite Es in Q.
+    unfold la in Q at 2. rewrite set_last_seg_id in Q. rewrite Q in Esl. inversion Esl.
+    change (erase_e (k, v, rl)) with (k, v, erase_l rl). rewrite Hrl, Hr.
+    change ((k, v, subl cur s0b) :: mk_es (subl cur) psb) with (mk_es (subl cur) ((k, v, s0b) :: psb)).
+    rewrite <- mk_es_app.
+    symmetry. apply bnode_of_segs. rewrite segs_app, Ea.
+    rewrite segs_head_pivot by lia. rewrite Eb. cbn [fst snd]. rewrite app_nil_r.
+    fold la. unfold la. rewrite set_last_seg_id. reflexivity.
+  - (* above the key's layer: descend *)
+    apply Nat.eqb_neq in Ect. destruct cur as [|cur']; [lia|]. cbn [Build.subl] in Hchild.
+    eapply oks_bind; [exact (descend_child cur' _ _ Hchild)|]. intros c Hc. cbn beta in Hc.
+    replace (S cur' - 1) with cur' by lia.
+    eapply oks_bind; [apply (IH cur') with (a := la) (b := s0b); [lia|lia|lia|exact Hc|exact Hla'|exact Hgb0]|].
+    intros r Hr'. destruct r as [|c'|c']; try contradiction. unfold ins_absent_post in Hr'.
+    apply oks_ret. unfold ins_absent_post.
+    destruct (set_last_link _ _ (n_l0 _ _ n) les (link_of _ _ c')) as [l0' les'] eqn:Esl.
+    rewrite erase_mk_dirty, map_app.
+    apply set_last_link_erase' in Esl. rewrite H0, Hl, link_of_erase, Hr' in Esl.
+    change (link_of _ _ (bnode cur' (la ++ (k, v) :: s0b))) with (subl (S cur') (la ++ (k, v) :: s0b)) in Esl.
+    rewrite set_last_link_mk_es in Esl.
+    pose proof (set_last_seg_twice K V s0a psa (la ++ s0b) (la ++ (k, v) :: s0b)) as Q. rewrite Es in Q.
+    rewrite Q in Esl.
+    destruct (set_last_seg K V s0a psa (la ++ (k, v) :: s0b)) as [sx psx] eqn:Ex. inversion Esl.
+    rewrite Hr, <- mk_es_app. change (build cur' sx) with (subl (S cur') sx).
+    symmetry. apply bnode_of_segs. rewrite segs_app, Ea.
+    rewrite segs_head_nonpivot by lia. rewrite Eb. cbn [fst snd]. fold la. rewrite Ex. reflexivity.
+Qed.
+
 End CANON.
